@@ -75,7 +75,7 @@ func (b *builder) try(body, succ, fail, fin []*Cmd) *Cmd {
 func cmdFails(c *Cmd) bool {
 	switch c.K {
 	case "p":
-		return c.F != ""
+		return c.F != "" && c.F != "stopok"
 	case "r":
 		if c.Sb != "" {
 			return true
@@ -176,7 +176,7 @@ func (m *model) exec(cmds []*Cmd, mode, depth int) bool {
 			if c.F == "eof" {
 				m.exp[c.ID] = expNot // the line is refused before any command starts
 			}
-			if cm != expNot && c.F != "" {
+			if cm != expNot && c.F != "" && c.F != "stopok" {
 				failed = true
 			}
 		case "r":
@@ -461,13 +461,13 @@ func (b *builder) genTry(rng *rand.Rand, depth int, fails *bool) *Cmd {
 // ---- bounded-exhaustive family --------------------------------------------------------------------
 
 const (
-	exhBodies   = 11
+	exhBodies   = 13
 	exhHandlers = 4
 	exhDrivers  = 3
 	exhTotal    = exhDrivers * exhBodies * exhHandlers * exhHandlers * exhHandlers
 )
 
-var exhBodyNames = []string{"ok", "fail-return", "fail-append-then-hold", "ok;fail-return", "task(ok);ok", "task(fail);ok", "try(body fails, handled);ok", "try(finally fails)", "task(sandbox Run returns an error);ok", "ok;line ending inside a quote", "stops its scope, then fails"}
+var exhBodyNames = []string{"ok", "fail-return", "fail-append-then-hold", "ok;fail-return", "task(ok);ok", "task(fail);ok", "try(body fails, handled);ok", "try(finally fails)", "task(sandbox Run returns an error);ok", "ok;line ending inside a quote", "stops its scope, then fails", "stops its scope without any error", "kills its scope and returns the error"}
 var exhHandlerNames = []string{"-", "ok", "fail-return", "fail-append"}
 
 // exhProgram decodes idx into (driver, body kind, success, fail, finally kinds). The structure is
@@ -509,6 +509,12 @@ func exhProgram(idx int, rng *rand.Rand) (b *builder, top *Cmd, driver string, l
 	case 10:
 		h, n := hold()
 		body = []*Cmd{b.probe("stop", h, n)}
+	case 11:
+		h, n := hold()
+		body = []*Cmd{b.probe("stopok", h, n)}
+	case 12:
+		h, n := hold()
+		body = []*Cmd{b.probe("kill", h, n)}
 	case 7:
 		inner := b.try([]*Cmd{b.probe("", 0, 0)}, nil, nil, []*Cmd{b.probe(failKind(rng), 0, 0)})
 		body = []*Cmd{inner, b.probe("", 0, 0)}
